@@ -7,6 +7,7 @@ import (
 	"go/ast"
 	"go/token"
 	"go/types"
+	"golang.org/x/tools/go/packages"
 	"regexp"
 	"sort"
 	"strings"
@@ -987,3 +988,66 @@ func constantStringVal(tv types.TypeAndValue) string {
 }
 
 var _ = sort.Strings
+
+// PORT.1: text.replace is a size-limited re-implementation of strings.Replace;
+// the cursor logic (which positions are replaced, and how the cursor advances
+// over an empty `old`) must stay identical to the reference's.
+func rulePORT1(c *Ctx) {
+	w := c.W
+	p := w.Stdlib
+	ref, err := w.loadRef("strings")
+	if err != nil {
+		c.anchor("reference package strings: " + err.Error())
+		return
+	}
+	mine, theirs := w.FuncDecl(p, "doTextReplace"), w.FuncDecl(ref, "Replace")
+	if mine == nil || theirs == nil {
+		c.anchor("doTextReplace / strings.Replace")
+		return
+	}
+	loopOf := func(fd *ast.FuncDecl) *ast.ForStmt {
+		for _, s := range fd.Body.List {
+			if f, ok := s.(*ast.ForStmt); ok {
+				return f
+			}
+		}
+		return nil
+	}
+	lm, lt := loopOf(mine), loopOf(theirs)
+	if lm == nil || lt == nil || len(lm.Body.List) < 3 || len(lt.Body.List) < 3 {
+		c.anchor("replacement loops")
+		return
+	}
+	canonLoop := func(pk *packages.Package, fd *ast.FuncDecl, l *ast.ForStmt) (string, string, string) {
+		head := canonStmts(pk, fd, []ast.Stmt{l.Init, &ast.ExprStmt{X: l.Cond}, l.Post}, nil)
+		cursor := canonStmts(pk, fd, l.Body.List[:2], nil)
+		adv := ""
+		for _, s := range l.Body.List {
+			if as, ok := s.(*ast.AssignStmt); ok && len(as.Lhs) == 1 {
+				if id, ok := as.Lhs[0].(*ast.Ident); ok && id.Name == "start" {
+					adv = w.Src(as)
+				}
+			}
+		}
+		return head, cursor, adv
+	}
+	h1, c1, a1 := canonLoop(p, mine, lm)
+	h2, c2, a2 := canonLoop(ref, theirs, lt)
+	_ = h1
+	_ = h2
+	c.check(c1 == c2, "replace/cursor", lm, "position of the next match / advance over an empty pattern identical to strings.Replace", "text.replace locates matches differently from strings.Replace: "+firstDiff(c1, c2))
+	c.check(a1 == a2 && a1 != "", "replace/advance", lm, "cursor continues after the replaced text as in strings.Replace ("+a1+")", fmt.Sprintf("text.replace continues at `%s`, strings.Replace at `%s`", a1, a2))
+	// the replacement count: the statement that clamps n
+	cnt := func(pk *packages.Package, fd *ast.FuncDecl) string {
+		for _, s := range fd.Body.List {
+			if is, ok := s.(*ast.IfStmt); ok && is.Init != nil && is.Else != nil {
+				if e, ok := is.Else.(*ast.IfStmt); ok {
+					return canonStmts(pk, fd, []ast.Stmt{is.Init, &ast.ExprStmt{X: is.Cond}, &ast.ExprStmt{X: e.Cond}}, nil) + canonStmts(pk, fd, e.Body.List, nil)
+				}
+			}
+		}
+		return ""
+	}
+	n1, n2 := cnt(p, mine), cnt(ref, theirs)
+	c.check(n1 == n2 && n1 != "", "replace/count", mine, "number of replacements computed as in strings.Replace", "text.replace computes the number of replacements differently from strings.Replace: "+firstDiff(n1, n2))
+}
